@@ -1,0 +1,89 @@
+//go:build verif
+
+package counters
+
+// Contracts for the deductive verifier in /verif (build tag verif: this file is
+// not compiled into normal builds). Oracle: CSS Counter Styles 3, §3.1 (systems),
+// §2 (generate a counter) and property C19.
+
+//@ func symbol
+//@   props C19
+//@   nopanic
+//@   ensures value.Name == "string" ==> result == value.String
+//@   ensures value.Name != "string" ==> result == ""
+
+// cyclic: defined for every integer; the symbol index is (value-1) mod len, in [0, len).
+//@ func repeating
+//@   props C19 C01 C07
+//@   nopanic
+//@   ensures len(symbols) == 0 ==> !result1
+//@   ensures[cyclic] len(symbols) > 0 ==> result1 && exists(k, 0, len(symbols), (value - 1 - k) % len(symbols) == 0 && result0 == symbol(symbols[k]))
+
+// fixed: the n-th symbol for firstValue <= value < firstValue+len, no representation otherwise.
+//@ func nonRepeating
+//@   props C19 C01 C07
+//@   nopanic
+//@   ensures result1 == (firstValue <= value && value < firstValue + len(symbols))
+//@   ensures result1 ==> result0 == symbol(symbols[value - firstValue])
+
+// symbolic: defined over strictly positive values only.
+//@ func symbolic
+//@   props C19 C01 C07
+//@   nopanic
+//@   ensures len(symbols) == 0 || value < 1 ==> !result1
+//@   ensures len(symbols) > 0 && value >= 1 ==> result1 && len(result0) == ((value-1)/len(symbols) + 1) * len(symbol(symbols[(value-1)%len(symbols)]))
+
+//@ func alphabetic
+//@   props C19 C01 C07
+//@   nopanic
+//@   requires value >= 0
+//@   ensures len(symbols) < 2 ==> !result1
+//@   ensures len(symbols) >= 2 ==> result1
+//@   loop 1 invariant value >= 0 && L == len(symbols) && L >= 2 && fresh(reversedParts)
+//@   loop 1 decreases value
+
+//@ func numeric
+//@   props C19 C01 C07
+//@   nopanic
+//@   requires len(symbols) >= 1
+//@   ensures len(symbols) < 2 && value != 0 ==> !result1
+//@   ensures value == 0 ==> result1 && result0 == symbol(symbols[0])
+//@   loop 1 invariant value >= 0 && L == len(symbols) && L >= 2 && fresh(reversedParts)
+//@   loop 1 decreases value
+
+// additive: weights are non-negative and strictly decreasing (established by the
+// additive-symbols descriptor validator); the value was made non-negative by renderValue.
+//@ func additive
+//@   props C19 C01 C07
+//@   nopanic
+//@   requires forall(i, 0, len(symbols), symbols[i].Int >= 0)
+//@   requires value >= 0
+//@   loop 2 invariant value >= 0 && fresh(parts)
+//@   loop 2 decreases len(symbols) - rangeindex
+
+//@ func reverse
+//@   props C19
+//@   nopanic
+//@   modifies a[..]
+//@   ensures forall(i, 0, len(a), a[i] == old(a[len(a)-1-i]))
+//@   loop 1 invariant 0 <= left && left <= right + 1 && left + right == len(a) - 1
+//@   loop 1 invariant forall(i, 0, left, a[i] == old(a[len(a)-1-i]) && a[len(a)-1-i] == old(a[i]))
+//@   loop 1 invariant forall(i, left, right + 1, a[i] == old(a[i]))
+//@   loop 1 decreases right - left + 1
+
+// Validate: the symbol-count minima of css-counter-styles-3 §3.1.
+//@ func (*CounterStyleDescriptors).Validate
+//@   props C19
+//@   nopanic
+//@   requires desc != nil
+//@   ensures result == nil && desc.System.Extends == "" && (desc.System.System == "cyclic" || desc.System.System == "fixed" || desc.System.System == "symbolic") ==> len(desc.Symbols) >= 1
+//@   ensures result == nil && desc.System == CounterStyleSystem{} ==> len(desc.Symbols) >= 1
+//@   ensures result == nil && desc.System.Extends == "" && (desc.System.System == "alphabetic" || desc.System.System == "numeric") ==> len(desc.Symbols) >= 2
+//@   ensures result == nil && desc.System.Extends == "" && desc.System.System == "additive" ==> len(desc.AdditiveSymbols) >= 2
+
+//@ func (*CounterStyleDescriptors).fallback
+//@   props C19
+//@   nopanic
+//@   requires desc != nil
+//@   ensures result != ""
+//@   ensures desc.Fallback != "" ==> result == desc.Fallback
